@@ -89,6 +89,10 @@ pub fn exec(a: &[&str]) -> String {
             let it = format!("{}:{}:{}:{}:{}:{}", d.iter().count(), ob(if n > 0 { d.iter().nth(n - 1) } else { d.iter().nth(0) }),
                 show_digits(&d.iter().skip(n / 2).collect::<Vec<u8>>()), show_digits(&d.iter().step_by(3).collect::<Vec<u8>>()),
                 ob(d.iter().last()), ob(d.iter().nth(n)));
+            // `Debug` renders the letters like `Display`; `for b in &d` is the same iteration
+            let dbg_ok = format!("{:?}", d) == d.to_string();
+            let into_ok = (&d).into_iter().collect::<Vec<u8>>() == bytes;
+            let it = format!("{}:{}:{}", it, dbg_ok as u8, into_ok as u8);
             format!(
                 "{}|bytes={} ascii={} disp={} rev={} rc={} eqc={} hashc={} cmpc={} cmpo={} eqo={} nd={} it={}",
                 tr.join(";"),
